@@ -249,6 +249,15 @@ theorem loads_slot (c : LoadSt) (ops : List (Level × KVs)) (hnd : (ops.map Prod
       | some op => rfl
       | none => simp [LoadSt.load, Levels.set, Ne.symm h]
 
+/-- RECORDED FINDING (C03-unload-stale-cache), on the model of the code as it is: un-setting the runtime path (or the
+    project location) and loading again resets the slot but does not re-merge — the cache still shows a value that no
+    level defines any more, until the next merge -/
+theorem unload_leaves_cache_stale_counterexample :
+    getLeaf [['y']] ((LoadSt.init.load .runtime [(['y'], .leaf (.i 2))]).unload .runtime).cache = some (.i 2) ∧
+    getLeaf [['y']] (view ((LoadSt.init.load .runtime [(['y'], .leaf (.i 2))]).unload .runtime).slots) = none := by
+  simp [LoadSt.load, LoadSt.unload, LoadSt.init, Levels.set, Levels.empty, view, viewOf, merge_order_levels, mergeLevel,
+    mergeT, lookup, insert, getLeaf]
+
 /-! ## non-vacuity: concrete, nested, partially overlapping level contents -/
 
 /-- defaults `{a: {x: 1, y: {z: 2}}, b: 3}`, project `{a: {x: 10}, c: {}}`, overrides `{a: {y: {z: 20, w: 21}}}` -/
